@@ -1,7 +1,7 @@
 #!/venv/bin/python
 """Coverage-guided campaign (atheris/libFuzzer) with the semantic oracle of a check inside the target.
 
-usage: atheris_target.py <c14|c16> <outdir> [libFuzzer flags...]
+usage: atheris_target.py <c14|c16|c17|...> <outdir> [libFuzzer flags...]
 The raw bytes are decoded into the same structured case the property's plain check function takes; a case on which the
 check reports a problem raises, libFuzzer stores the bytes, and the wrapper (checks/*.py leg `atheris`) decodes them back
 into a replayable case.  Writes <outdir>/result.json.
@@ -34,6 +34,13 @@ def decode(data):
 
 
 count = [0]
+nt_hashes, cls_hist, samples = set(), {}, []
+
+
+def dump_stats():
+    with open(os.path.join(outdir, "stats.json.tmp"), "w") as f:
+        json.dump({"cases": count[0], "nt_hashes": sorted(nt_hashes), "classes": cls_hist, "samples": samples}, f)
+    os.replace(os.path.join(outdir, "stats.json.tmp"), os.path.join(outdir, "stats.json"))
 
 
 def one(data):
@@ -43,6 +50,14 @@ def one(data):
     count[0] += 1
     note = core.Note()
     problem = mod.fuzz_check(case, note)
+    for c in note.classes:
+        cls_hist[c] = cls_hist.get(c, 0) + 1
+    if note.nontrivial and len(nt_hashes) < 300000:
+        nt_hashes.add(core.case_hash(case if note.key is None else note.key))
+        if len(samples) < 3 and count[0] % 97 == 1:
+            samples.append(case)
+    if count[0] % 2000 == 0:
+        dump_stats()   # (atexit handlers do not run under libFuzzer: the last partial block of up to 1999 cases is not in the statistics)
     if problem:
         with open(os.path.join(outdir, "failure.json"), "w") as f:
             json.dump({"case": case, "problem": problem}, f)
